@@ -7,6 +7,7 @@ package main
 // scanner coalescing scripts. Deterministic in (tier, seed).
 
 import (
+	"bytes"
 	"encoding/binary"
 	"fmt"
 	"math"
@@ -795,8 +796,18 @@ func genC11(tier string, seed uint64) []*c11Case {
 	for k := 0; k < 40; k++ {
 		rows = append(rows, rng.Bytes(12, []byte{',', 't', 'a', 0, 0xff, '.', '7'}))
 	}
+	// names shaped like the client's own search keys (`table,key,:`), ids that do not start with a digit
+	rows = append(rows, []byte("t,b,:"), []byte("t,a,:"), []byte("t,,:"), []byte("t,a,:7"), []byte("t,a,x7"), []byte("t,a,;"), []byte("t,a,/"))
 	for _, row := range rows {
 		cases = append(cases, &c11Case{op: "metarow", infoVal: goodInfo, metaRow: row})
+	}
+	// a region info whose table name is longer than a row key can be (the search key for it cannot be built)
+	for _, n := range []int{32700, 32764, 32765, 32766, 40000, 70000} {
+		long := bytes.Repeat([]byte("x"), n)
+		li, _ := proto.Marshal(&pb.RegionInfo{RegionId: proto.Uint64(7),
+			TableName: &pb.TableName{Namespace: []byte("default"), Qualifier: long},
+			StartKey:  []byte("a"), EndKey: []byte("m")})
+		cases = append(cases, &c11Case{op: "metarow", infoVal: append([]byte("PBUF"), li...), metaRow: append(append([]byte{}, long...), []byte(",a,7")...)})
 	}
 	for n := 0; n <= 12; n++ {
 		cases = append(cases, &c11Case{op: "incr", infoVal: make([]byte, n)})
